@@ -342,6 +342,7 @@ REGISTRY = {
                       'shortest-path diagonal not compared',
         'parts': [
             {'kind': 'custom', 'module': 'pybound.c20_checks'},
+            {'kind': 'pyvc', 'module': 'contracts.c20'},
         ],
         'rule': 'one evaluation = all 22 contracts on one labelled graph; '
                 'non-trivial = every graph (the empty graph included as a '
